@@ -881,6 +881,15 @@ def _forward_view_of_tags(cad, x):
                 okc = r[0] == 'tuple' and len(r[1]) == 2
                 if okc:
                     k, v = r[1]
+                    # `k.as_ref().map(String::as_str)` is `k.as_deref()`
+                    k = norm(k)
+                    if k[0] == 'call' and k[1] == 'core::option::Option::map' and len(k[2]) == 2:
+                        f_ = k[2][1]
+                        while f_[0] in ('ref', 'unsize'):
+                            f_ = f_[1]
+                        if f_[0] == 'fn' and f_[1] in ('alloc::string::String::as_str', '<alloc::string::String as core::ops::deref::Deref>::deref',
+                                                       '<alloc::string::String as core::convert::AsRef<str>>::as_ref', '<alloc::string::String as core::convert::AsRef>::as_ref'):
+                            k = k[2][0]
                     okc = deep_peel(strip_views(k)) == ('field', ('item',), KF) and deep_peel(strip_views(v)) == ('field', ('item',), VF)
                 elif r[0] == 'phi':
                     # `match k { Some(k) => (Some(k.as_str()), v), None => (None, v) }` is as_deref() written out: both arms,
@@ -1012,6 +1021,18 @@ def string_alternatives(T, t, depth=0):
             '<alloc::boxed::Box as core::default::Default>::default', '<alloc::string::String as core::default::Default>::default',
             '<alloc::boxed::Box<str> as core::default::Default>::default'):
         return [[]]
+    if t[0] == 'call' and t[1] in ('alloc::slice::concat', 'alloc::slice::<impl [T]>::concat') and len(t[2]) == 1:
+        # `[a, "."].concat()`: the pieces one after the other
+        a_ = t[2][0]
+        while a_[0] in ('ref', 'unsize', 'deref'):
+            a_ = a_[1]
+        if a_[0] == 'array':
+            atoms = []
+            for piece in a_[1]:
+                s_ = peel(piece)
+                atoms.append(('lit', s_[1]) if s_[0] == 'str' else ('val', s_))
+            return [atoms]
+        return None
     if term_callee_is(t, 'alloc::fmt::format'):
         try:
             atoms = []
